@@ -175,7 +175,7 @@ Example C12_nonvacuous :
                 existsb (fun b => b =? 33) rest = true).       (* a `!` repeat introducer occurs *)
 Proof.
   split; [|split; [|split]].
-  - repeat split; try (cbn; lia); repeat constructor.
+  - repeat split; try (cbn; lia); try (apply N.leb_le; vm_compute; reflexivity); repeat constructor.
   - intros o [<-|[<-|[]]]; vm_compute; reflexivity.
   - vm_compute. discriminate.
   - eexists. split; [vm_compute; reflexivity|vm_compute; reflexivity].
